@@ -72,3 +72,142 @@ CONTRACTS = [LagrangeInit(n, i) for n in (2, 3, 4) for i in range(n)] + [Lagrang
 LEMMAS = []
 ASSUMPTIONS = ["machine floats treated as reals (A-REAL)", "number of knots fixed to 2..4 (loop-free unrolling); knots symbolic distinct reals",
                "unique solvability of the collocation systems, B-spline recursion, restricted/modified Lagrange bases, derivatives/integrals: layer B only"]
+
+
+# --------------------------------------------------------------------------- any number of knots: loop invariants over the ghost product
+from pyvc.book import Loop  # noqa: E402
+from pyvc import prelude as P  # noqa: E402
+from pyvc import lemmas as L  # noqa: E402
+
+I_, R_ = z3.IntSort(), z3.RealSort()
+
+
+def inv_factors(x, idx):
+    """array i -> 1/(x_idx - x_i)  (1 at i == idx): the factors of the normalisation constant"""
+    i = z3.Int("fi")
+    return z3.Lambda([i], z3.If(i == idx, z3.RealVal(1), 1 / (z3.Select(x, idx) - z3.Select(x, i))))
+
+
+def num_factors(x, idx, at):
+    """array i -> (at - x_i)  (1 at i == idx): the factors of the node polynomial evaluated at `at`"""
+    i = z3.Int("ni")
+    return z3.Lambda([i], z3.If(i == idx, z3.RealVal(1), at - z3.Select(x, i)))
+
+
+def knots_distinct(x, n):
+    i, j = z3.Ints("ki kj")
+    return z3.ForAll([i, j], z3.Implies(z3.And(i >= 0, i < n, j >= 0, j < n, i != j), z3.Select(x, i) != z3.Select(x, j)), patterns=[z3.MultiPattern(z3.Select(x, i), z3.Select(x, j))])
+
+
+def any_basis(S, with_factor):
+    n = S.int("n")
+    S.assume(n >= 1)
+    idx = S.int("index")
+    S.assume(z3.And(idx >= 0, idx < n))
+    for ax in P.prod_axioms():
+        S.assume(ax, "def:Prod")
+    knots = S.seq("knots", n, R_, kind="array")
+    f = dict(p=S.int("p"), index=idx, knots=knots)
+    if with_factor:
+        f["factor"] = S.real("factor")
+    return Obj("LagrangeBasis", f), knots, idx, n
+
+
+class LagrangeInitAny(Contract):
+    file, qualname = FILE, "LagrangeBasis.__init__"
+    label = "LagrangeBasis.__init__[any number of knots]"
+
+    def inputs(self, S):
+        _, knots, idx, n = any_basis(S, False)
+        return {"self": Obj("LagrangeBasis", {}), "p": S.int("p"), "index": idx, "knots": knots}
+
+    def pre(self, S, env):
+        return [("knots-distinct", knots_distinct(env["knots"].arr, env["knots"].len()))]
+
+    def inv(self, S, env, g):
+        x = S.ex.old["knots"].arr
+        idx = S.ex.old["index"]
+        f = env["self"].fields
+        return [("factor-so-far", Vv.to_z3(f["factor"], True) == P.PRODR(inv_factors(x, idx), 0, g["k"])),
+                ("fields", z3.And(f["knots"].arr == x, f["index"] == idx))]
+
+    @property
+    def loops(self):
+        return {0: Loop(inv=lambda S, env, g: self.inv(S, env, g))}
+
+    def post(self, S, old, env, result):
+        f = env["self"].fields
+        if "factor" not in f:
+            return [Cl("sets-factor", False)]
+        return [Cl("normalisation-factor-is-the-product-of-the-reciprocal-knot-distances",
+                   Vv.to_z3(f["factor"], True) == P.PRODR(inv_factors(old["knots"].arr, old["index"]), 0, old["knots"].len()), prop=True)]
+
+
+def prod_zero_stmt(a, n, j):
+    return z3.Implies(z3.And(j >= 0, j < n, z3.Select(a, j) == 0), P.PRODR(a, 0, n) == 0)
+
+
+def prod_inverse_stmt(a, b, n):
+    i = z3.Int("pii")
+    return z3.Implies(z3.And(n >= 0, z3.ForAll([i], z3.Implies(z3.And(i >= 0, i < n), z3.Select(a, i) * z3.Select(b, i) == 1))), P.PRODR(a, 0, n) * P.PRODR(b, 0, n) == 1)
+
+
+def _prod_zero_lemma():
+    a = z3.Const("a", z3.ArraySort(I_, R_))
+    m, j = z3.Ints("m j")
+    ax = P.prod_axioms()
+    fixed = [j >= 0, z3.Select(a, j) == 0]
+    claim = lambda k: z3.Implies(j < k, P.PRODR(a, 0, k) == 0)  # noqa
+    return [(ax + fixed, claim(z3.IntVal(0))), (ax + fixed + [m >= 0, claim(m)], claim(m + 1))]
+
+
+def _prod_inverse_lemma():
+    a = z3.Const("a", z3.ArraySort(I_, R_))
+    b = z3.Const("b", z3.ArraySort(I_, R_))
+    m, i = z3.Ints("m i")
+    ax = P.prod_axioms()
+    pw = lambda k: z3.ForAll([i], z3.Implies(z3.And(i >= 0, i < k), z3.Select(a, i) * z3.Select(b, i) == 1))  # noqa
+    claim = lambda k: P.PRODR(a, 0, k) * P.PRODR(b, 0, k) == 1  # noqa
+    return [(ax, claim(z3.IntVal(0))), (ax + [m >= 0, z3.Implies(pw(m), claim(m)), pw(m + 1)], claim(m + 1))]
+
+
+class LagrangeCallAny(Contract):
+    """any number of distinct knots, evaluation at one of the knots: 1 at the own knot, 0 at every other knot"""
+    file, qualname = FILE, "LagrangeBasis.__call__"
+    label = "LagrangeBasis.__call__[any number of knots, x = a knot]"
+
+    def inputs(self, S):
+        slf, knots, idx, n = any_basis(S, True)
+        at = S.int("at")
+        S.assume(z3.And(at >= 0, at < n))
+        return {"self": slf, "x": z3.Select(knots.arr, at), "_at": at}
+
+    def pre(self, S, env):
+        f = env["self"].fields
+        x, n = f["knots"].arr, f["knots"].len()
+        return [("knots-distinct", knots_distinct(x, n)),
+                ("factor-from-the-constructor", f["factor"] == P.PRODR(inv_factors(x, f["index"]), 0, n))]
+
+    def inv(self, S, env, g):
+        f = S.ex.old["self"].fields
+        return [("node-polynomial-so-far", Vv.to_z3(env["result"], True) == P.PRODR(num_factors(f["knots"].arr, f["index"], S.ex.old["x"]), 0, g["k"])),
+                ("fields", z3.And(env["self"].fields["knots"].arr == f["knots"].arr, env["self"].fields["index"] == f["index"], env["self"].fields["factor"] == f["factor"]))]
+
+    @property
+    def loops(self):
+        return {0: Loop(inv=lambda S, env, g: self.inv(S, env, g))}
+
+    def post(self, S, old, env, result):
+        f = old["self"].fields
+        x, n, idx, at = f["knots"].arr, f["knots"].len(), f["index"], old["_at"]
+        num, inv = num_factors(x, idx, old["x"]), inv_factors(x, idx)
+        r = Vv.to_z3(result, True)
+        return [Cl("value-is-node-polynomial-times-normalisation", r == P.PRODR(num, 0, n) * P.PRODR(inv, 0, n)),
+                Cl("one-at-its-own-knot", z3.Implies(at == idx, r == 1), prop=True, by=[("prod-inverse", prod_inverse_stmt(num, inv, n))]),
+                Cl("zero-at-every-other-knot", z3.Implies(at != idx, r == 0), prop=True, by=[("prod-zero", prod_zero_stmt(num, n, at))])]
+
+
+CONTRACTS += [LagrangeInitAny(), LagrangeCallAny()]
+LEMMAS += [L.SmtLemma("prod-zero", _prod_zero_lemma, note="a product with a zero factor is zero (induction)"),
+           L.SmtLemma("prod-inverse", _prod_inverse_lemma, note="products of pointwise reciprocal arrays are reciprocal (induction, nonlinear step)")]
+ASSUMPTIONS += ["any-number-of-knots contracts: ghost Prod (recursion axioms), the index and the evaluation knot are symbolic"]
